@@ -3,6 +3,6 @@
 # MANIFEST.json); their evidence goes to evidence_extras/ so that evidence/ holds the listed properties only
 cd "$(dirname "$0")/.."
 mkdir -p evidence_extras
-for id in X01; do
+for id in X01 X02; do
   VERIF_EVIDENCE_DIR="$PWD/evidence_extras" ./check $id --tier "${1:-quick}" || exit $?
 done
